@@ -356,8 +356,6 @@ Definition tfind (x : elt) (st : state) : status * option item * list Z :=
   ((match res with Some _ => SUCCESS | None => NOT_FOUND end), res, lg).
 
 (* histories *)
-Inductive op := OIns (x : elt) | ORem (id : Z) | OFind (x : elt).
-
 Inductive event :=
 | EvIns (s : status) (it : option Z)
 | EvRem (s : status) (destroyed : list item)
@@ -378,3 +376,19 @@ Fixpoint run (dup : bool) (ops : list op) (o : list bool) (st : state) : state *
   end.
 
 End Ops.
+
+(* every destroy call made by the removals of a history *)
+Fixpoint destroyed_of (evs : list event) : list item :=
+  match evs with
+  | [] => []
+  | EvRem _ dl :: evs' => dl ++ destroyed_of evs'
+  | _ :: evs' => destroyed_of evs'
+  end.
+
+(* the elements stored by the successful inserts of a history, with their identities *)
+Fixpoint inserted_of (ops : list op) (evs : list event) : list item :=
+  match ops, evs with
+  | OIns x :: ops', EvIns SUCCESS (Some id) :: evs' => (id, x) :: inserted_of ops' evs'
+  | _ :: ops', _ :: evs' => inserted_of ops' evs'
+  | _, _ => []
+  end.
